@@ -367,7 +367,9 @@ fn run_part<A: Alg>(label: &str, n: usize, mode: Mode, depth: Option<usize>, all
         let _ = base;
         sys.dirty = true;
     }
-    let cfg = ExploreCfg { max_depth: depth, max_states: 30_000_000, wall_cap_s: wall };
+    // thorough parts are many and deep: a part that would grow beyond the cap is stopped there (reported as
+    // cap_hit with the depth it completed) instead of exhausting the machine's memory
+    let cfg = ExploreCfg { max_depth: depth, max_states: if wall > 100.0 { 6_000_000 } else { 30_000_000 }, wall_cap_s: wall };
     let t0 = std::time::Instant::now();
     let res = explore(&sys, &cfg);
     Part { name: label.to_string(), n, depth, res, wall: t0.elapsed().as_secs_f64() }
